@@ -1,5 +1,5 @@
 //@ module src/protocol/libp2p/kademlia/bucket.rs
-//@ harness c14_bucket_entry_full_3sym kind=bounded tier=thorough timeout=1200 bound="bucket of exactly 20 nodes, 3 with symbolic key byte and connection state, 17 fixed Connected nodes with distinct keys"
+//@ harness c14_bucket_entry_full_3sym kind=bounded tier=quick timeout=1200 bound="bucket of exactly 20 nodes, 3 with symbolic key byte and connection state, 17 fixed Connected nodes with distinct keys"
 //@ harness c14_closest_iter_sorted kind=witness tier=thorough timeout=1200 bound="bucket of 3 nodes with symbolic 2-byte key suffixes, symbolic target suffix, address-store emptiness by uninterpreted flag"
 //@ harness c14_kbucket_canary kind=canary tier=quick timeout=120
 //
